@@ -135,7 +135,7 @@ def judge(rep, s, m):
     if s.impl[0] == "err" and s.impl[1] == "Leak:Timeout":
         bad.append(("terminates", "call did not return within the watchdog"))
     kc = S.known_class(s)
-    if bad and len(rep.violations) < 6:
+    if bad:
         rep.violation(H.step_case(s, model=[list(mout), mtree]),
                       "%s.%s%r from tree %r — %s: %s" % (s.kind, s.op[0], s.op[1:], [e[:2] for e in s.pre][:10], bad[0][0], bad[0][1]),
                       found_input=True, signature=("C05/known/" + kc) if kc else "C05/%s/%s/%s" % (s.kind, s.op[0], bad[0][0]))
@@ -151,7 +151,7 @@ def judge(rep, s, m):
             dis = "verdict impl=%s model=%s" % (s.impl[:2], mout)
         elif s.post is not None and H.canon_tree(s.post) != H.canon_tree(H.dec_tree(mtree)):
             dis = "tree"
-    if dis and len(rep.violations) < 6:
+    if dis:
         rep.disagreements_checked += 1
         rep.violation(H.step_case(s, model=[list(mout), mtree]),
                       "correspondence Ref.step vs %s.%s%r broke (%s); bystanders and post-conditions still hold on this input"
@@ -244,7 +244,7 @@ def judge_cross(rep, c):
                             bad.append((fn + "_post", "source content missing at %r" % "/".join(p)))
     if c["res"][0] == "err" and c["res"][1] == "Leak:Timeout":
         bad.append(("terminates", "watchdog"))
-    if bad and len(rep.violations) < 6:
+    if bad:
         case = {k: (v if not isinstance(v, list) else [[e[0], e[1]] + ([e[2].decode("latin-1")] if e[0] == "F" else []) for e in v]) for k, v in c.items()}
         rep.violation(case, "fs.%s(%s:%r -> %s:%r) — %s: %s" % (fn, c["ka"], c["sp"], c["kb"], c["dp"], bad[0][0], bad[0][1]),
                       found_input=True, signature="C05/cross/%s/%s" % (fn, bad[0][0]))
